@@ -43,7 +43,8 @@ MODELLED_DUNDERS: Dict[Tuple[str, str], str] = {
 }
 CONTAINER_CLASSES = {"MarketDict", "AssetDict"}        # mapping protocol compared with the container references (base_refs)
 CONTAINER_DUNDERS = {"__getitem__", "__setitem__", "__contains__", "__len__", "__iter__", "__delitem__"}
-NEUTRAL_DUNDERS = {"__init__", "__str__", "__repr__", "__post_init__", "__format__", "__doc__", "__slots__", "__annotations__", "__module__",
+NEUTRAL_DUNDERS = {"__init__", "__str__", "__repr__", "__post_init__",   # __post_init__ is executed by the evaluator on construction
+                   "__format__", "__doc__", "__slots__", "__annotations__", "__module__",
                    "__enter__", "__exit__", "__del__", "__sizeof__", "__dir__", "__class_getitem__"}
 COMMON = ("demeter/broker/", "demeter/_typing.py", "demeter/utils/", "demeter/__init__.py")
 
@@ -161,6 +162,32 @@ def world_rule(model: Model, res, scope: Tuple[str, ...] = (), rule: str = "R-WO
                 refuse.append(("W4", f.loc(), f.qualname, nm,
                                f"{c.name} defines `{nm}`: expressions over its instances (operators, comparisons, truth value, attribute access, "
                                f"copying, pickling) no longer mean what the evaluator assumes, so nothing that touches {c.name} can be decided"))
+        # ---- W5 a record class stores what it is given: __post_init__ may check, not transform (the ledgers compare records
+        #         by the arguments of their construction; a field rewritten behind the constructor is read by every user)
+        for c in m.classes.values():
+            post = c.methods.get("__post_init__")
+            if post is None or not c.is_dataclass or post.cls is not c:
+                continue
+            from ..vn import Evaluator, Ctx, Obj, Unreadable, sym, _same_value
+            names = []
+            for k in reversed(model.mro(c)):
+                names += [x for x in k.field_ann if x not in names]
+            try:
+                ev = Evaluator(model)
+                got = ev.construct(c, [], {x: sym(x) for x in names}, Ctx(post, 0, c))
+            except Unreadable as e:
+                refuse.append(("W5", post.loc(), post.qualname, "__post_init__", f"{c.name}.__post_init__ is outside the evaluator's language ({e})"))
+                continue
+            except Exception as e:  # noqa
+                refuse.append(("W5", post.loc(), post.qualname, "__post_init__", f"{c.name}.__post_init__ could not be evaluated ({type(e).__name__})"))
+                continue
+            changed = [x for x in names if isinstance(got, Obj) and x in got.fields and not _same_value(got.fields[x], sym(x))]
+            n += 1
+            for x in changed:
+                findings.append(("W5", post.loc(), post.qualname, f"field {x} rewritten on construction",
+                                 f"{c.name}.__post_init__ replaces the field `{x}` given to the constructor by `{got.fields[x]!r}`"[:300] +
+                                 f": every reader of {c.name}.{x} (comparisons, keys, settlement / valuation formulas) sees the rewritten "
+                                 f"value, not the one the operation stored"))
         # ---- W3 decorators
         for f in funcs:
             n += 1
